@@ -327,6 +327,12 @@ void h_element_const(void)
 #ifndef GV_BDIM
 #define GV_BDIM 3
 #endif
+#ifndef GV_BDMAX
+#define GV_BDMAX 2
+#endif
+#ifndef GV_BLMAX
+#define GV_BLMAX 2
+#endif
 #ifndef GV_LEN2
 #define GV_LEN2 1
 #endif
@@ -347,10 +353,10 @@ void h_bounded_ldl_inverse(void)
   const Index len[5] = { 0, 0, GV_LEN2, GV_LEN3, 0 };      /* concrete row-band shape of this check (one check per shape) */
   Float L[D + 1][D + 1], dg[D + 1], Nfull[D + 1][D + 1];
   for (Index i = 1; i <= D; i++) {
-    int dsel; __CPROVER_assume(dsel >= 0 && dsel <= 2);
+    int dsel; __CPROVER_assume(dsel >= 0 && dsel <= GV_BDMAX);
     dg[i] = dsel == 0 ? 1.0 : dsel == 1 ? 2.0 : 4.0;
     for (Index j = 1; j <= D; j++) {
-      int v; __CPROVER_assume(-2 <= v && v <= 2);
+      int v; __CPROVER_assume(-GV_BLMAX <= v && v <= GV_BLMAX);
       L[i][j] = (j == i) ? 1.0 : (j < i && i - j <= len[i]) ? (Float)v : 0.0;
     }
   }
